@@ -269,7 +269,8 @@ def signature(case, out, clause):
     t = case.line.split()
     cls = ''
     if clause == 'no-undefined-behaviour-or-crash':
-        cls = '/' + t[1] + ('/' + out.split()[1] if out.startswith('CRASH') and len(out.split()) > 1 else '/throw')
+        kind = ':'.join(out.split()[1].split(':')[:2]) if out.startswith('CRASH') and len(out.split()) > 1 else 'throw'
+        cls = '/' + t[1] + '/' + kind
     elif t[0] == 'env' and t[1] in ('uint', 'float'):
         v = unenv(t[3] if t[1] == 'uint' else t[4]) or b''
         if t[2] == '1':
@@ -374,7 +375,7 @@ UNIT_LIST = [b'ns', b'us', b'ms', b's', b'm', b'h', b'', b'', b'S', b'sec', b'mi
 
 def gen_env(rng, big):
     out = []
-    k = 10 if big else 1
+    k = 40 if big else 4
     # ---- bool
     for lit in (b'true', b'false'):
         for mask in range(1 << len(lit)):
@@ -553,7 +554,7 @@ def rand_env_service(rng):
 
 def gen_res(rng, big):
     out = []
-    k = 10 if big else 1
+    k = 40 if big else 4
     for _ in range(2000 * k):
         out.append(C(f'res merge {rand_attrs(rng)} {hx(rand_schema(rng))} {rand_attrs(rng)} {hx(rand_schema(rng))}', 'merge', origin='gen'))
     for _ in range(1500 * k):
@@ -561,7 +562,7 @@ def gen_res(rng, big):
     for s in (b',', b',,', b'=', b'==', b'a', b'a=', b'=a', b'a=b,', b',a=b', b'a=b,a=c', b'a=b,,a=c,', b'a==b', b'a=b=c,b'):
         out.append(C(f'res detect {hx(s)} unset', 'detect', 'detect-edge', origin='gen'))
         out.append(C(f'res create {hx(s)} unset - -', 'create', 'detect-edge', origin='gen'))
-    for _ in range(300 * (17 if big else 1)):
+    for _ in range(300 * (17 if big else 3)):
         out.append(C(f'res create {envtok(rand_env_attrs(rng))} {envtok(rand_env_service(rng))} {rand_attrs(rng, 4)} {hx(rand_schema(rng))}', 'create', origin='gen'))
     return out
 
